@@ -240,6 +240,27 @@ theorem next_width (l : Lexer) (w : Int) : ({ l with width := w } : Lexer).next 
   unfold Lexer.next
   simp only [Lexer.len]
 
+/-- what `lexText` does after `/*` (the text before it has been sent): `/**/` is an empty block
+    comment (/repo 73e5662), `/**` otherwise starts a soydoc comment, anything else a block
+    comment -/
+def afterSlashStar (l3 : Lexer) : Res :=
+  match l3.next with
+  | none => none
+  | some (r3, l4) =>
+    if r3 = 42 then
+      match l4.peek with
+      | none => none
+      | some (p4, l5) =>
+        if p4 = 47 then
+          match l5.next with
+          | none => none
+          | some (_, l6) =>
+            match l6.emit .tComment with
+            | none => none
+            | some l7 => some (some .text, l7)
+        else lexSoyDoc l5
+    else lexBlockComment l4.backup false
+
 /-- one iteration of the loop of `lexText`, given the rune `next` delivers -/
 theorem lexTextLoop_some {l l1 : Lexer} {lc r : Int} (hn : l.next = some (r, l1)) :
     lexTextLoop l lc =
@@ -258,9 +279,7 @@ theorem lexTextLoop_some {l l1 : Lexer} {lc r : Int} (hn : l.next = some (r, l1)
             match maybeEmitText l2 2 with
             | none => none
             | some l3 =>
-              match l3.next with
-              | none => none
-              | some (r3, l4) => if r3 = 42 then lexSoyDoc l4 else lexBlockComment l4.backup false
+              afterSlashStar l3
           else lexTextLoop l2.backup r
       else if r = 123 then
         match maybeEmitText l1.backup 0 with
@@ -533,9 +552,7 @@ theorem lexText_cut_block {l l' l1 l2 : Lexer} {lc lc' : Int} (hrun : PlainRun l
     (hn : l'.next = some (47, l1)) (hn2 : l1.next = some (42, l2)) (h0 : 0 ≤ l.start) (h1 : l.start ≤ l.pos) :
     ∃ l3 : Lexer, l3.items.toList = l.items.toList ++ textItems l.input l.start l'.pos ∧ l3.pos = l2.pos ∧
       l3.input = l.input ∧
-      lexTextLoop l lc = (match l3.next with
-        | none => none
-        | some (r3, l4) => if r3 = 42 then lexSoyDoc l4 else lexBlockComment l4.backup false) := by
+      lexTextLoop l lc = afterSlashStar l3 := by
   obtain ⟨he, hi, hs, hin, _⟩ := lexTextLoop_run hrun
   have hple := (hrun.pos_le (by omega)).1
   have hf := (next_facts hn (by omega)).2.2
@@ -669,6 +686,73 @@ theorem lexText_plain_then_open (pre post : Bytes)
   rw [h2, hp']
   simp [initLexer]
 
+/-! ### what `maybeEmitText` drops
+
+  A pending text that is "all whitespace with a line break" is not sent.  Since /repo dbf6196 the
+  test is `isSpaceEOL` on every rune — space, tab, CR, LF, exactly `Spec.isWs`, the whitespace of
+  the line-joining rule — so no character that line joining would keep is ever dropped by the
+  lexer (before, `unicode.IsSpace`: a no-break space, form feed, U+2028 … with a line break
+  between two tags vanished). -/
+
+theorem isSpaceEOL_cases {r : Int} (h : Lex.isSpaceEOL r = true) : r = 32 ∨ r = 9 ∨ r = 13 ∨ r = 10 := by
+  simp only [Lex.isSpaceEOL, Lex.isSpace, Lex.isEndOfLine, Bool.or_eq_true, beq_iff_eq] at h
+  omega
+
+theorem allSpaceLoop_bytes : ∀ (n : Nat) (a : Array UInt8) (i : Nat) (sn : Bool), a.size - i = n →
+    allSpaceLoop a i sn = true →
+    ∀ j, i ≤ j → j < a.size → byteAt a j = 32 ∨ byteAt a j = 9 ∨ byteAt a j = 13 ∨ byteAt a j = 10 := by
+  intro n
+  induction n using Nat.strongRecOn with
+  | _ n ih =>
+    intro a i sn hn h j hij hj
+    rw [allSpaceLoop] at h
+    have hi : i < a.size := by omega
+    simp only [hi, dite_true] at h
+    split at h
+    · exact absurd h (by simp)
+    · rename_i hsp
+      have hsp' : Lex.isSpaceEOL ((decodeRune a i).1 : Int) = true := by simpa using hsp
+      have hc := isSpaceEOL_cases hsp'
+      have hsmall : (decodeRune a i).1 < 128 := by omega
+      have hb := decodeRune_small a i hsmall
+      have hw : (decodeRune a i).2 = 1 := by
+        rcases decodeRune_ascii a i with h1 | h1
+        · exact h1
+        · omega
+      by_cases hji : j = i
+      · subst hji; omega
+      · rw [hw] at h
+        exact ih (a.size - (i + 1)) (by omega) a (i + 1) _ rfl h j (by omega) hj
+
+/-- a text run the lexer drops consists of the whitespace bytes of the line-joining rule only -/
+theorem dropped_run_is_whitespace (s : Bytes) (h : allSpaceWithNewline s = true) :
+    ∀ b ∈ s, Spec.isWs b = true := by
+  intro b hb
+  obtain ⟨j, hj, rfl⟩ := List.getElem_of_mem hb
+  have := allSpaceLoop_bytes _ s.toArray 0 false rfl h j (Nat.zero_le _) (by simpa using hj)
+  have e : byteAt s.toArray j = (s[j]).toNat := by
+    have := byteAt_append_left s [] j hj
+    simpa using this
+  rw [e] at this
+  simp only [Spec.isWs, Bool.or_eq_true, beq_iff_eq]
+  rcases this with h | h | h | h
+  · exact Or.inl (Or.inl (Or.inl (UInt8.toNat_inj.mp h)))
+  · exact Or.inl (Or.inl (Or.inr (UInt8.toNat_inj.mp h)))
+  · exact Or.inl (Or.inr (UInt8.toNat_inj.mp h))
+  · exact Or.inr (UInt8.toNat_inj.mp h)
+
+/-- in terms of `textItems`: when a non-empty pending text yields no Text item, all its bytes
+    are `isWs` -/
+theorem textItems_nil_whitespace (input : Array UInt8) (start q : Int) (hq : q > start)
+    (h : textItems input start q = []) :
+    ∀ b ∈ (input.extract start.toNat q.toNat).toList, Spec.isWs b = true := by
+  unfold textItems at h
+  by_cases hs : allSpaceWithNewline (input.extract start.toNat q.toNat).toList = true
+  · exact dropped_run_is_whitespace _ hs
+  · have hs' : allSpaceWithNewline (input.extract start.toNat q.toNat).toList = false := by simpa using hs
+    rw [if_pos ⟨hq, hs'⟩] at h
+    exact absurd h (by simp)
+
 /-! ### lifted to `lexAll` where the scan ends in `lexText`
 
   When the first text run ends the scan — at the end of the input, or at a stray `}` — the
@@ -719,6 +803,15 @@ theorem lex_slashes_after_comment :
       .items [⟨.tText, 2, [97, 32]⟩, ⟨.tComment, 9, [47, 42, 32, 99, 32, 42, 47]⟩,
         ⟨.tText, 12, [47, 47, 98]⟩, ⟨.tEOF, 12, []⟩] := by
   simp [lexAll, Lex.fuelFor, run, step, lexText, lexTextLoop, lexBlockComment, Lexer.next, initLexer, Lexer.len,
+    decodeRune, byteAt, maybeEmitText, Lexer.backup, eof, Lexer.emit, sliceOf, Lexer.addPos, allSpaceWithNewline,
+    allSpaceLoop, Lex.isSpaceEOL, Lex.isSpace, Lex.isEndOfLine]
+
+/-- `a/**/b`: `/**/` is an empty block comment (before /repo 73e5662 it began a soydoc comment and
+    the scan failed with "unexpected eof when scanning soydoc") -/
+theorem lex_empty_block_comment :
+    lexAll [97, 47, 42, 42, 47, 98] false =
+      .items [⟨.tText, 1, [97]⟩, ⟨.tComment, 5, [47, 42, 42, 47]⟩, ⟨.tText, 6, [98]⟩, ⟨.tEOF, 6, []⟩] := by
+  simp [lexAll, Lex.fuelFor, run, step, lexText, lexTextLoop, Lexer.next, Lexer.peek, initLexer, Lexer.len,
     decodeRune, byteAt, maybeEmitText, Lexer.backup, eof, Lexer.emit, sliceOf, Lexer.addPos, allSpaceWithNewline,
     allSpaceLoop, Lex.isSpaceEOL, Lex.isSpace, Lex.isEndOfLine]
 
